@@ -239,6 +239,373 @@ static void op_uriset(const jval *c)
 	evhttp_uri_free(u);
 }
 
+
+/* ---- C42: tagged data ---------------------------------------------------- */
+int evtag_decode_int(ev_uint32_t *pnumber, struct evbuffer *evbuf);
+int evtag_decode_int64(ev_uint64_t *pnumber, struct evbuffer *evbuf);
+int evtag_encode_tag(struct evbuffer *evbuf, ev_uint32_t tag);
+int evtag_decode_tag(ev_uint32_t *ptag, struct evbuffer *evbuf);
+
+/* numbers travel as digit lists, least significant first, no leading zeros (base 16 or 128) */
+static uint64_t digits_val(const jval *a, int bits)
+{
+	uint64_t v = 0;
+	size_t i;
+	if (!a || a->t != J_ARR) return 0;
+	for (i = a->n; i > 0; i--) v = (v << bits) | (uint64_t)a->items[i - 1]->i;
+	return v;
+}
+static void put_digits(uint64_t v, int bits)
+{
+	int first = 1;
+	fputc('[', out);
+	while (v) { fprintf(out, "%s%u", first ? "" : ",", (unsigned)(v & ((1u << bits) - 1))); v >>= bits; first = 0; }
+	fputc(']', out);
+}
+static void free_ref(const void *data, size_t len, void *arg) { (void)len; (void)arg; free((void *)data); }
+/* an evbuffer holding b[0..n) as reference chains of exact-size heap blocks:
+ * cfg 0: one chain; cfg p in 1..n-1: two chains split at p; cfg n (n > 1): one chain per byte */
+static struct evbuffer *split_buffer(const unsigned char *b, size_t n, size_t cfg)
+{
+	struct evbuffer *eb = evbuffer_new();
+	size_t i, a = 0;
+	for (i = 1; i <= n; i++) {
+		int cut = (i == n) || (cfg == n && n > 1) || (cfg > 0 && cfg < n && i == cfg);
+		if (cut) {
+			unsigned char *blk = malloc(i - a);
+			memcpy(blk, b + a, i - a);
+			evbuffer_add_reference(eb, blk, i - a, free_ref, NULL);
+			a = i;
+		}
+	}
+	return eb;
+}
+static void put_buf(struct evbuffer *eb)
+{
+	size_t n = evbuffer_get_length(eb);
+	unsigned char *t = malloc(n ? n : 1);
+	evbuffer_copyout(eb, t, n);
+	put_bytes(t, n);
+	free(t);
+}
+static void put_fail(void) { fputs("{\"ok\":false}", out); }
+
+/* one typed unmarshal call; kind: int i64 str raw tv fixN */
+static void typed_unmarshal(struct evbuffer *eb, const char *k, ev_uint32_t need, size_t fixlen, int with_rem)
+{
+	int rc;
+	if (!strcmp(k, "int")) {
+		ev_uint32_t v = 0xdeadbeef;
+		rc = evtag_unmarshal_int(eb, need, &v);
+		if (rc < 0) { put_fail(); return; }
+		fprintf(out, "{\"ok\":true,\"rc\":%d,\"v\":", rc); put_digits(v, 4);
+	} else if (!strcmp(k, "i64")) {
+		ev_uint64_t v = 0xdeadbeefdeadbeefULL;
+		rc = evtag_unmarshal_int64(eb, need, &v);
+		if (rc < 0) { put_fail(); return; }
+		fprintf(out, "{\"ok\":true,\"rc\":%d,\"v\":", rc); put_digits(v, 4);
+	} else if (!strcmp(k, "str")) {
+		char *str = NULL;
+		rc = evtag_unmarshal_string(eb, need, &str);
+		if (rc < 0) { put_fail(); return; }
+		fprintf(out, "{\"ok\":true,\"rc\":%d,\"v\":", rc); put_cstr(str);
+		free(str);
+	} else if (!strcmp(k, "raw")) {
+		struct evbuffer *dst = evbuffer_new();
+		ev_uint32_t tag = 0xdeadbeef;
+		rc = evtag_unmarshal(eb, &tag, dst);
+		if (rc < 0) { evbuffer_free(dst); put_fail(); return; }
+		fprintf(out, "{\"ok\":true,\"rc\":%d,\"tag\":", rc); put_digits(tag, 7);
+		fputs(",\"v\":", out); put_buf(dst);
+		evbuffer_free(dst);
+	} else if (!strcmp(k, "tv")) {
+		struct timeval tv = { -1, -1 };
+		rc = evtag_unmarshal_timeval(eb, need, &tv);
+		if (rc < 0) { put_fail(); return; }
+		fprintf(out, "{\"ok\":true,\"rc\":%d,\"s\":", rc); put_digits((ev_uint32_t)tv.tv_sec, 4);
+		fputs(",\"u\":", out); put_digits((ev_uint32_t)tv.tv_usec, 4);
+	} else { /* fixed */
+		unsigned char *d = malloc(fixlen ? fixlen : 1);
+		rc = evtag_unmarshal_fixed(eb, need, d, fixlen);
+		if (rc < 0) { free(d); put_fail(); return; }
+		fprintf(out, "{\"ok\":true,\"rc\":%d,\"v\":", rc); put_bytes(d, fixlen);
+		free(d);
+	}
+	if (with_rem) fprintf(out, ",\"rem\":%zu", evbuffer_get_length(eb));
+	fputc('}', out);
+}
+
+/* run `fn` once per split configuration, each into its own memory stream; print the output of
+ * configuration 0 under "key" and the list of configurations whose output differs */
+typedef void (*split_fn)(struct evbuffer *eb, const jval *c);
+static void over_splits(const unsigned char *b, size_t n, const jval *c, split_fn fn, const char *key)
+{
+	FILE *saved = out;
+	char *ref = NULL; size_t reflen = 0;
+	char *firstdiff = NULL;
+	size_t cfg, ndiff = 0, firstcfg = 0;
+	for (cfg = 0; cfg <= n; cfg++) {
+		char *mem = NULL; size_t memlen = 0;
+		struct evbuffer *eb;
+		if (cfg == n && n <= 1 && cfg != 0) break;
+		eb = split_buffer(b, n, cfg);
+		out = open_memstream(&mem, &memlen);
+		fn(eb, c);
+		fclose(out);
+		evbuffer_free(eb);
+		if (cfg == 0) { ref = mem; reflen = memlen; }
+		else {
+			if (memlen != reflen || memcmp(mem, ref, reflen)) {
+				if (!ndiff++) { firstdiff = mem; firstcfg = cfg; mem = NULL; }
+			}
+			free(mem);
+		}
+	}
+	out = saved;
+	fprintf(out, "\"%s\":%s,\"splits\":%zu,\"splitdiff\":%zu", key, ref, n + 1, ndiff);
+	if (ndiff) fprintf(out, ",\"firstdiff\":{\"cfg\":%zu,\"out\":%s}", firstcfg, firstdiff);
+	free(ref); free(firstdiff);
+}
+
+static void rt_steps(struct evbuffer *eb, const jval *c)
+{
+	const jval *items = j_get(c, "items");
+	size_t i;
+	fputc('[', out);
+	for (i = 0; items && i < items->n; i++) {
+		const jval *it = items->items[i];
+		const char *k = j_str(it, "k", "");
+		ev_uint32_t need = (ev_uint32_t)digits_val(j_get(it, "tag"), 7), tag = 0xdeadbeef, plen = 0xdeadbeef, tot = 0xdeadbeef;
+		int r1 = evtag_peek(eb, &tag), r2 = evtag_payload_length(eb, &plen), r3 = evtag_peek_length(eb, &tot);
+		if (i) fputc(',', out);
+		if (r1 < 0 || r2 < 0 || r3 < 0) { fprintf(out, "{\"peek\":[%d,%d,%d]}", r1, r2, r3); continue; }
+		fputs("{\"tag\":", out); put_digits(tag, 7);
+		fputs(",\"plen\":", out); put_digits(plen, 4);
+		fprintf(out, ",\"total\":%u,\"r\":", tot);
+		typed_unmarshal(eb, k, need, 0, 0);
+		fprintf(out, ",\"rem\":%zu}", evbuffer_get_length(eb));
+	}
+	fputc(']', out);
+}
+static void op_tagrt(const jval *c)
+{
+	const jval *items = j_get(c, "items");
+	struct evbuffer *eb = evbuffer_new();
+	size_t i, n;
+	unsigned char *wire;
+	for (i = 0; items && i < items->n; i++) {
+		const jval *it = items->items[i];
+		const char *k = j_str(it, "k", "");
+		ev_uint32_t tag = (ev_uint32_t)digits_val(j_get(it, "tag"), 7);
+		if (!strcmp(k, "int")) evtag_marshal_int(eb, tag, (ev_uint32_t)digits_val(j_get(it, "v"), 4));
+		else if (!strcmp(k, "i64")) evtag_marshal_int64(eb, tag, digits_val(j_get(it, "v"), 4));
+		else if (!strcmp(k, "str")) { char *str = get_cstr(it, "b"); evtag_marshal_string(eb, tag, str); free(str); }
+		else if (!strcmp(k, "raw")) {
+			size_t bn; unsigned char *b = get_bytes(it, "b", &bn);
+			if (i & 1) {	/* alternate between the two raw marshalling calls */
+				struct evbuffer *src = evbuffer_new();
+				evbuffer_add(src, b, bn);
+				evtag_marshal_buffer(eb, tag, src);
+				evbuffer_free(src);
+			} else evtag_marshal(eb, tag, b, (ev_uint32_t)bn);
+			free(b);
+		} else if (!strcmp(k, "tv")) {
+			struct timeval tv;
+			tv.tv_sec = (long)digits_val(j_get(it, "s"), 4);
+			tv.tv_usec = (long)digits_val(j_get(it, "u"), 4);
+			evtag_marshal_timeval(eb, tag, &tv);
+		}
+	}
+	n = evbuffer_get_length(eb);
+	wire = malloc(n ? n : 1);
+	evbuffer_copyout(eb, wire, n);
+	evbuffer_free(eb);
+	fputs("{\"wire\":", out); put_bytes(wire, n); fputc(',', out);
+	over_splits(wire, n, c, rt_steps, "steps");
+	fputc('}', out);
+	free(wire);
+}
+
+/* every decoder on a fresh copy of the bytes */
+static void dec_all(struct evbuffer *src, const jval *c)
+{
+	size_t n = evbuffer_get_length(src);
+	unsigned char *b = malloc(n ? n : 1);
+	size_t cfg = (size_t)j_int(c, "_cfg", 0);
+	struct evbuffer *eb;
+	int rc;
+	(void)cfg;
+	evbuffer_copyout(src, b, n);
+#define FRESH() do { eb = evbuffer_new(); evbuffer_add_buffer_reference(eb, src); } while (0)
+#define DONE() evbuffer_free(eb)
+	fputc('{', out);
+	{ ev_uint32_t tag = 0xdeadbeef; FRESH(); rc = evtag_decode_tag(&tag, eb);
+	  fputs("\"dtag\":", out);
+	  if (rc < 0) put_fail(); else { fputs("{\"ok\":true,\"tag\":", out); put_digits(tag, 7); fprintf(out, ",\"rc\":%d,\"rem\":%zu}", rc, evbuffer_get_length(eb)); }
+	  DONE(); }
+	{ ev_uint32_t v = 0xdeadbeef; FRESH(); rc = evtag_decode_int(&v, eb);
+	  fputs(",\"dint\":", out);
+	  if (rc < 0) put_fail(); else { fputs("{\"ok\":true,\"v\":", out); put_digits(v, 4); fprintf(out, ",\"rem\":%zu}", evbuffer_get_length(eb)); }
+	  DONE(); }
+	{ ev_uint64_t v = 0xdeadbeef; FRESH(); rc = evtag_decode_int64(&v, eb);
+	  fputs(",\"di64\":", out);
+	  if (rc < 0) put_fail(); else { fputs("{\"ok\":true,\"v\":", out); put_digits(v, 4); fprintf(out, ",\"rem\":%zu}", evbuffer_get_length(eb)); }
+	  DONE(); }
+	{ ev_uint32_t v = 0xdeadbeef; FRESH(); rc = evtag_payload_length(eb, &v);
+	  fputs(",\"plen\":", out);
+	  if (rc < 0) put_fail(); else { fputs("{\"ok\":true,\"v\":", out); put_digits(v, 4); fputc('}', out); }
+	  if (evbuffer_get_length(eb) != n) { fclose(out); abort(); }	/* peeking never consumes */
+	  DONE(); }
+	{ ev_uint32_t v = 0xdeadbeef; FRESH(); rc = evtag_peek_length(eb, &v);
+	  if (rc < 0) fputs(",\"tot\":-1", out); else fprintf(out, ",\"tot\":%u", v);
+	  DONE(); }
+	{ ev_uint32_t tag = 0xdeadbeef; FRESH(); rc = evtag_unmarshal_header(eb, &tag);
+	  fputs(",\"hdr\":", out);
+	  if (rc < 0) put_fail(); else { fputs("{\"ok\":true,\"tag\":", out); put_digits(tag, 7); fprintf(out, ",\"rc\":%d,\"rem\":%zu}", rc, evbuffer_get_length(eb)); }
+	  DONE(); }
+	{ FRESH(); rc = evtag_consume(eb);
+	  fputs(",\"cons\":", out);
+	  if (rc < 0) put_fail(); else fprintf(out, "{\"ok\":true,\"rem\":%zu}", evbuffer_get_length(eb));
+	  DONE(); }
+#define TYPED(name, k, need, fix) do { FRESH(); fprintf(out, ",\"%s\":", name); typed_unmarshal(eb, k, need, fix, 1); DONE(); } while (0)
+	TYPED("raw", "raw", 0, 0);
+	TYPED("int0", "int", 0, 0); TYPED("int15", "int", 15, 0);
+	TYPED("i640", "i64", 0, 0); TYPED("i6415", "i64", 15, 0);
+	TYPED("str0", "str", 0, 0); TYPED("str128", "str", 128, 0);
+	TYPED("tv0", "tv", 0, 0);
+	TYPED("fix0", "fix", 0, 0); TYPED("fix1", "fix", 0, 1); TYPED("fix15", "fix", 0, 15);
+	fputc('}', out);
+	free(b);
+}
+static void op_tagdec(const jval *c)
+{
+	size_t n;
+	unsigned char *b = get_bytes(c, "b", &n);
+	fputc('{', out);
+	over_splits(b, n, c, dec_all, "r");
+	fputc('}', out);
+	free(b);
+}
+
+
+/* ---- C41: ASCII helpers -------------------------------------------------- */
+static int sgn(int x) { return x < 0 ? -1 : x > 0 ? 1 : 0; }
+/* snprintf into an exact-size heap block of n bytes; prints {"ret":r,"out":bytes | [-1] untouched | [-2] unterminated} */
+static void put_snp_result(int r, const char *buf, size_t n)
+{
+	fprintf(out, "{\"ret\":%d,\"out\":", r);
+	if (n == 0) fputs("[-1]", out);
+	else if (!memchr(buf, 0, n)) fputs("[-2]", out);
+	else put_cstr(buf);
+	fputc('}', out);
+}
+static void snp_fmt(int k, size_t n)
+{
+	char *buf = malloc(n ? n : 1);
+	int r;
+	memset(buf, 0xAA, n ? n : 1);
+	switch (k) {
+	case 0: r = evutil_snprintf(buf, n, "%d", -42); break;
+	case 1: r = evutil_snprintf(buf, n, "%x-%s", 255, "ab"); break;
+	case 2: r = evutil_snprintf(buf, n, "%05u", 42u); break;
+	case 3: r = evutil_snprintf(buf, n, "%c%%", 'z'); break;
+	default: r = evutil_snprintf(buf, n, "%s", ""); break;
+	}
+	put_snp_result(r, buf, n);
+	free(buf);
+}
+static void op_ctab(const jval *c)
+{
+	int i, k;
+	static const size_t fmtlen[5] = { 3, 5, 5, 2, 0 };
+	(void)c;
+#define TAB(name, fn) do { fprintf(out, "\"%s\":[", name); for (i = 0; i < 256; i++) fprintf(out, "%s%d", i ? "," : "", (int)(unsigned char)fn((char)i)); fputs("],", out); } while (0)
+#define PRED(name, fn) do { fprintf(out, "\"%s\":[", name); for (i = 0; i < 256; i++) fprintf(out, "%s%d", i ? "," : "", fn((char)i)); fputs("],", out); } while (0)
+	fputc('{', out);
+	PRED("alpha", EVUTIL_ISALPHA_); PRED("alnum", EVUTIL_ISALNUM_); PRED("space", EVUTIL_ISSPACE_);
+	PRED("digit", EVUTIL_ISDIGIT_); PRED("xdigit", EVUTIL_ISXDIGIT_); PRED("print", EVUTIL_ISPRINT_);
+	PRED("lower", EVUTIL_ISLOWER_); PRED("upper", EVUTIL_ISUPPER_);
+	TAB("tolower", EVUTIL_TOLOWER_); TAB("toupper", EVUTIL_TOUPPER_);
+	fputs("\"fmt\":[", out);
+	for (k = 0; k < 5; k++) {
+		size_t n;
+		fprintf(out, "%s[", k ? "," : "");
+		for (n = 0; n <= fmtlen[k] + 2; n++) { if (n) fputc(',', out); snp_fmt(k, n); }
+		fputc(']', out);
+	}
+	fputs("]}", out);
+}
+static void op_str(const jval *c)
+{
+	char *a = get_cstr(c, "a"), *b = get_cstr(c, "b");
+	size_t la = strlen(a), n;
+	const char *hit;
+	char *t;
+	fprintf(out, "{\"cmp\":%d,\"ncmp\":[", sgn(evutil_ascii_strcasecmp(a, b)));
+	for (n = 0; n < 5; n++) fprintf(out, "%s%d", n ? "," : "", sgn(evutil_ascii_strncasecmp(a, b, n)));
+	hit = evutil_ascii_strcasestr(a, b);
+	fprintf(out, "],\"str\":%d,\"rtrim\":", hit ? (int)(hit - a) : -1);
+	t = malloc(la + 1); memcpy(t, a, la + 1);
+	evutil_rtrim_lws_(t);
+	put_cstr(t);
+	free(t);
+	fputs(",\"snp\":[", out);
+	for (n = 0; n <= la + 2; n++) {
+		char *buf = malloc(n ? n : 1);
+		int r;
+		memset(buf, 0xAA, n ? n : 1);
+		r = evutil_snprintf(buf, n, "%s", a);
+		if (n) fputc(',', out);
+		put_snp_result(r, buf, n);
+		free(buf);
+	}
+	fputs("]}", out);
+	free(a); free(b);
+}
+/* socket address from {"f":4|6,"addr":[bytes],"port":p}, in an exact-size heap block */
+static struct sockaddr *mk_sockaddr(const jval *a, int *len)
+{
+	size_t n;
+	unsigned char *ab = get_bytes(a, "addr", &n);
+	struct sockaddr *sa;
+	if (j_int(a, "f", 4) == 4) {
+		struct sockaddr_in *sin = calloc(1, sizeof(*sin));
+		sin->sin_family = AF_INET;
+		memcpy(&sin->sin_addr, ab, 4);
+		sin->sin_port = htons((unsigned short)j_int(a, "port", 0));
+		sa = (struct sockaddr *)sin; *len = sizeof(*sin);
+	} else {
+		struct sockaddr_in6 *sin6 = calloc(1, sizeof(*sin6));
+		sin6->sin6_family = AF_INET6;
+		memcpy(&sin6->sin6_addr, ab, 16);
+		sin6->sin6_port = htons((unsigned short)j_int(a, "port", 0));
+		sa = (struct sockaddr *)sin6; *len = sizeof(*sin6);
+	}
+	free(ab);
+	return sa;
+}
+static void op_sacmp(const jval *c)
+{
+	const jval *as = j_get(c, "addrs");
+	size_t n = as ? as->n : 0, i, j;
+	struct sockaddr **sa = calloc(n ? n : 1, sizeof(*sa));
+	int len, wp;
+	for (i = 0; i < n; i++) sa[i] = mk_sockaddr(as->items[i], &len);
+	fputc('{', out);
+	for (wp = 0; wp < 2; wp++) {
+		fprintf(out, "%s\"m%d\":[", wp ? "," : "", wp);
+		for (i = 0; i < n; i++) {
+			fprintf(out, "%s[", i ? "," : "");
+			for (j = 0; j < n; j++) fprintf(out, "%s%d", j ? "," : "", sgn(evutil_sockaddr_cmp(sa[i], sa[j], wp)));
+			fputc(']', out);
+		}
+		fputc(']', out);
+	}
+	fputc('}', out);
+	for (i = 0; i < n; i++) free(sa[i]);
+	free(sa);
+}
+
 /* ---- dispatch ---------------------------------------------------------- */
 static void run_case(const jval *c)
 {
@@ -247,6 +614,11 @@ static void run_case(const jval *c)
 	else if (!strcmp(op, "query")) op_query(c);
 	else if (!strcmp(op, "uri")) op_uri(c);
 	else if (!strcmp(op, "uriset")) op_uriset(c);
+	else if (!strcmp(op, "tagrt")) op_tagrt(c);
+	else if (!strcmp(op, "ctab")) op_ctab(c);
+	else if (!strcmp(op, "str")) op_str(c);
+	else if (!strcmp(op, "sacmp")) op_sacmp(c);
+	else if (!strcmp(op, "tagdec")) op_tagdec(c);
 	else fprintf(out, "{\"err\":\"unknown op\"}");
 }
 
